@@ -297,9 +297,13 @@ func parseContractFile(path string) (*ContractFile, error) {
 				n, _ := strconv.Atoi(m[1])
 				cl := &Clause{Kind: m[2], Loop: n, Props: parseProps(m[3]), Text: m[4], Line: l.line}
 				if cl.Kind == "modifies" {
-					locs, err := parseSpecList(m[4])
-					if err != nil {
-						return nil, fail(err)
+					var locs []*Spec
+					if strings.TrimSpace(m[4]) != "nothing" {
+						var err error
+						locs, err = parseSpecList(m[4])
+						if err != nil {
+							return nil, fail(err)
+						}
 					}
 					cl.Kind = "loopmodifies"
 					cl.Locs = locs
